@@ -17,7 +17,7 @@ use std::ops::Range;
 pub static INFO: PropInfo = PropInfo {
     id: "C16",
     level: "fault_enumeration",
-    rule: "enumerated sub-spaces (exhaustive: true refers to these only): (E1) all 4096 subsets of a 12-element universe of packet sequence numbers, in 3 numberings, as ack sets: codec round trip of the range list, and fed through process_packet (ascending and one seeded shuffled order) to a fresh endpoint whose emitted Ack packet, decoded, must equal the recorded set (hook) and the fed set; (E2) every netcode packet kind x sequence-length class 0..8 bytes (sequence 0, 1, 2^8k-1, 2^8k) x payload length {0,1,1299,1300}: decode(encode(v)) = (sequence, v) with the crate's codec. Sampled: (S1) random renet packets of every kind with every field on varint boundaries (63/64, 16383/16384, 2^30, 2^62-1), 0..n messages of 0..1200 bytes, sorted non-adjacent range lists of 1..64 ranges incl. single-element ranges and gaps of exactly one: decode(encode(v)) == v; (S2) random and mutated byte strings: if decode(b) = v then decode(encode(v)) = v; (S3) sparse sequence sets of up to 90 ranges fed to an endpoint: emitted Ack == recorded set, subset of the fed set, <= 64 ranges, equal to the fed set whenever it never needed more than 64 ranges; (S4) connect tokens with 1..32 IPv4/IPv6 addresses through write/read and seal/open, and mutated token bytes through read -> write -> read. Non-trivial = a value with at least one multi-byte varint / non-empty body / >= 2 ranges / >= 2 addresses; distinct = distinct value fingerprints.",
+    rule: "enumerated sub-spaces (exhaustive: true refers to these only): (E1) all 4096 subsets of a 12-element universe of packet sequence numbers, in 3 numberings, as ack sets: codec round trip of the range list, and fed through process_packet (ascending and one seeded shuffled order) to a fresh endpoint whose emitted Ack packet, decoded, must equal the recorded set (hook) and the fed set; (E2) every netcode packet kind x sequence-length class 0..8 bytes (sequence 0, 1, 2^8k-1, 2^8k) x payload length {0,1,1299,1300}: decode(encode(v)) = (sequence, v) with the crate's codec. Sampled: (S1) random renet packets of every kind with every field on varint boundaries (63/64, 16383/16384, 2^30, 2^62-1), 0..n messages of 0..1200 bytes, sorted non-adjacent range lists of 1..64 ranges incl. single-element ranges and gaps of exactly one: decode(encode(v)) == v; (S2) random and mutated byte strings: if decode(b) = v then decode(encode(v)) = v; (S3) sparse sequence sets of up to 90 ranges fed to an endpoint: emitted Ack == recorded set, subset of the fed set, <= 64 ranges, equal to the fed set whenever it never needed more than 64 ranges; beyond 64 ranges it must contain the highest sequence fed and the one fed last (unless below everything recorded) and, for ascending or descending feeds, equal exactly the 64 highest ranges of the fed set; (S4) connect tokens with 1..32 IPv4/IPv6 addresses through write/read and seal/open, and mutated token bytes through read -> write -> read. Non-trivial = a value with at least one multi-byte varint / non-empty body / >= 2 ranges / >= 2 addresses; distinct = distinct value fingerprints.",
     assumptions: &["values 'the library can build' are generated within the limits the library itself enforces when sending (message <= 1200 bytes in a small packet, slice payload 1..1200, slice index < slice count <= 10^6, <= 64 ack ranges, packet <= 1300 bytes)"],
     gates: &[
         ("ack_subsets_enumerated", 4096),
@@ -28,6 +28,7 @@ pub static INFO: PropInfo = PropInfo {
         ("tokens_roundtripped", 200),
         ("token_bytes_decoded_ok", 200),
         ("ack_ranges_64", 10),
+        ("ack_feed_overflowed_monotone", 50),
         ("renet_values_over_255_messages", 100),
     ],
     engines_quick: &["e1"],
@@ -163,6 +164,27 @@ fn feed_and_check(ctx: &Ctx, out: &mut Outcome, order: &[u64], run_seed: u64, mo
                 if !fed.contains(&x) {
                     ok = false;
                 }
+            }
+        }
+        // "newest 64 ranges": whichever way newest is read (by value or by arrival) the highest sequence fed stays recorded, the
+        // sequence fed last stays recorded unless it lies below everything recorded, and for a monotone feed (ascending or
+        // descending, where both readings coincide) the recorded set is exactly the 64 highest ranges of the fed set.
+        let max_fed = *fed.iter().next_back().unwrap();
+        if !recorded.iter().any(|r| r.contains(&max_fed)) {
+            ok = false;
+        }
+        let last = *order.last().unwrap();
+        let lowest = recorded.first().map(|r| r.start).unwrap_or(u64::MAX);
+        if last > lowest && !recorded.iter().any(|r| r.contains(&last)) {
+            ok = false;
+        }
+        let asc = order.windows(2).all(|w| w[0] < w[1]);
+        let desc = order.windows(2).all(|w| w[0] > w[1]);
+        if asc || desc {
+            out.count("ack_feed_overflowed_monotone");
+            let top: Vec<Range<u64>> = expected[expected.len() - 64..].to_vec();
+            if recorded != top {
+                ok = false;
             }
         }
         if !ok {
